@@ -31,16 +31,34 @@ def fmt_sites(body, blocks):
 
 
 def rule_precedes(ctx, chk, rid, fn, a, b, what, floor_b=1):
+    """precedes(A, B) evaluated in fn and in the private helpers fn's body may have been moved into; a B site that
+    is only a call into such a helper is judged inside the helper."""
     O = ctx.O
-    body = O.body(fn)
-    bs = O.need_sites(body, b, floor_b)
-    # a site that is both A and B (e.g. one call running both, in unknown order) is not "preceded"
-    both = [x for x in bs if O.matches(body, x, a)]
-    bad = O.precedes(body, M(a.rx.pattern, reach=a.reach, label=a.label,
-                             where=lambda bd, blk, t: blk not in both and (a.where is None or a.where(bd, blk, t))), b)
-    chk.oblige("%s precedes(%s: %s before %s) [%d site(s)]" % (rid, fn, a.label, b.label, len(bs)), not bad,
-               detail={"rule": rid, "function": fn, "must_come_first": a.label, "before": b.label,
-                       "unpreceded_sites": fmt_sites(body, bad), "all_sites": fmt_sites(body, bs)},
+    O.body(fn)
+    scope = O.scope_of(fn)
+    all_b, all_bad, where = [], [], []
+    for g in scope:
+        body = O.body(g)
+        direct_b = M(b.rx.pattern, reach=False, where=b.where, label=b.label)
+        bs = [x for x in O.sites(body, b) if O.matches(body, x, direct_b) or not O.calls_into(body, x, scope)]
+        if not bs:
+            continue
+        both = [x for x in bs if O.matches(body, x, a)]
+        bm = M(b.rx.pattern, reach=b.reach, label=b.label,
+               where=lambda bd, blk, t, _bs=bs: blk in _bs and (b.where is None or b.where(bd, blk, t)))
+        am = M(a.rx.pattern, reach=a.reach, label=a.label,
+               where=lambda bd, blk, t, _both=both: blk not in _both and (a.where is None or a.where(bd, blk, t)))
+        bad = O.precedes(body, am, bm)
+        all_b += fmt_sites(body, bs)
+        all_bad += fmt_sites(body, bad)
+        where.append(g)
+    if len(all_b) < floor_b:
+        raise AnchorMissing("%s (and its private helpers): expected >= %d call site(s) matching %s, found %d" % (
+            fn, floor_b, b, len(all_b)))
+    chk.oblige("%s precedes(%s: %s before %s) [%d site(s) in %s]" % (rid, fn, a.label, b.label, len(all_b),
+                                                                      [w.split("::")[-1] for w in where]), not all_bad,
+               detail={"rule": rid, "function": fn, "evaluated_in": where, "must_come_first": a.label, "before": b.label,
+                       "unpreceded_sites": all_bad, "all_sites": all_b},
                key="%s|%s|%s" % (rid, fn, b.label), msg=what)
 
 
@@ -109,10 +127,10 @@ def run(ctx, chk):
     O, P = ctx.O, ctx.P
     # B05.1 Database::flush
     anchors.check(ctx, chk, ['regions_sync', 'regions_flush', 'write_if_dirty', 'regions_write_at', 'write_to_mmap', 'db_write', 'db_copy', 'mark_dirty', 'mark_dirty_abs', 'take_dirty', 'remove_region_pending', 'promote_reads_pending', 'promote_inserts', 'punch'])
-    fb = O.body(FLUSH)
-    clean_sites = O.need_sites(fb, MARK_CLEAN, 1)
-    committing_sync = M(r"rawdb::regions::Regions::sync_data", reach=True,
-                        where=lambda body, b, t: O.can_reach(body, b, clean_sites),
+    def _commits(body, b, t):
+        cs = O.sites(body, M(r"rawdb::region_metadata::RegionMetadata::mark_clean"))
+        return bool(cs) and O.can_reach(body, b, cs)
+    committing_sync = M(r"rawdb::regions::Regions::sync_data", reach=True, where=_commits,
                         label="Regions::sync_data (on a path that marks dirty regions clean)")
     rule_precedes(ctx, chk, "B05.1a", FLUSH, FILE_SYNC, committing_sync,
                   "data file must be synced before the metadata file wherever dirty regions are committed "
@@ -122,6 +140,22 @@ def run(ctx, chk):
     rule_precedes(ctx, chk, "B05.1c", FLUSH, REGIONS_SYNC, PROMOTE,
                   "freed extents become reusable (promote_pending_holes) only after the metadata that frees them "
                   "was synced, on every path of Database::flush")
+    # B05.1d promotion only on success: no promote_pending_holes while the Result of a sync-reaching call is
+    # unchecked or failed
+    risky = M(r"std::fs::File::sync_(data|all)|rawdb::regions::Regions::sync_data|memmap2::MmapMut::flush\w*", reach=True,
+              label="a call that reaches a sync/flush")
+    n_p = 0
+    for g in O.scope_of(FLUSH):
+        body = O.body(g)
+        ps = O.sites(body, M(r"rawdb::layout::Layout::promote_pending_holes"))
+        n_p += len(ps)
+        bad = O.after_failure(body, risky, M(r"rawdb::layout::Layout::promote_pending_holes"))
+        chk.oblige("B05.1d %s: promote_pending_holes only after the syncs it depends on have succeeded" % g.split("::")[-1],
+                   not bad, detail={"sites": fmt_sites(body, bad)}, key="B05.1d|%s|promote-after-failure" % FLUSH,
+                   msg="freed extents must not become reusable when a sync of this flush failed (or before its result "
+                       "was checked)")
+    if n_p < 1:
+        raise AnchorMissing("no promote_pending_holes site in Database::flush or its private helpers")
     # B05.2 Region::flush
     rule_precedes(ctx, chk, "B05.2", RFLUSH, FILE_SYNC, REGIONS_SYNC,
                   "data file must be synced before the metadata file (Region::flush)")
